@@ -231,6 +231,9 @@ def run(ck, F, tier):
     # peek_bits walks the buffered bytes from byte bits_read / 8 on, in order (C14's rule H)
     from . import c14
     c14.h_msb_first(Scoped(ck, 'C14.'), F)
+    # .. and a picture is decoded from its own bytes only: the macroblock loop leaves after exactly mb_per_line * mb_height macroblocks (C15's rule M7), so
+    # whether the bytes of the NEXT picture are already behind it in the reader (one continuous reader or one reader per picture) cannot change the outcome
+    c15.m7_count_bound(Scoped(ck, 'C15.'), F)
     ck.floor('HashMap call sites screened', nh, 5)
     # "a pure function of ... the sequence of bytes supplied": the only input channel is std::io::Read, whose `read` may split the same
     # byte sequence differently from call to call (sockets, pipes). The result is independent of that splitting only if the source is
